@@ -17,6 +17,7 @@ import playback.tape_recorder as trmod
 from playback.tape_recorder import TapeRecorder
 
 PROPERTY = 'C17'
+TECHNIQUE = 'CrossHair/z3 symbolic execution of the sampling decision through the real decorators with exact rational rates/draws and a spy cassette; decision-table oracle with draw accounting'
 FUNCTIONS = ['playback/tape_recorder.py::TapeRecorder.start_recording',
              'playback/tape_recorder.py::TapeRecorder._should_sample_active_recording',
              'playback/tape_recorder.py::TapeRecorder.force_sample_recording',
